@@ -53,7 +53,7 @@ package cty
 //@   frame_only
 //@   writes MapC<Any~Unit> marks
 //@   writes bytes.Buffer buf
-//@   ensures[C03,C06] number_hash: (=> (and (wf_deep val) (is_number_ty (vty val)) (kn val)) (= (buf.str ($at<bytes.Buffer> buf)) (str.++ (buf.str (old ($at<bytes.Buffer> buf))) (num_text10 (num_i val) (num_r val) (bf.negzero (bf_of val))))))
+//@   ensures[C03,C06] number_hash: (=> (and (wf_deep val) (is_number_ty (vty val)) (kn val)) (= (buf.str ($at<bytes.Buffer> buf)) (str.++ (buf.str (old ($at<bytes.Buffer> buf))) (num_text10 (num_i val) (num_r val) false))))
 //
 // Interface contracts of unknownValRefinement (assumed at dynamic calls; every
 // implementer below carries the same clauses and is verified against them).
